@@ -113,6 +113,11 @@ DroppedNeverRun ==
          (Born(i) /\ SameInst(i) /\ EnUnwind(D(i), M(i)) /\ insts'[i].m.stack = <<>> /\ M(i).opt.rtc)
          => insts'[i].m.queue = <<>> /\ ~insts'[i].m.locked]_mvars
 
+\* C05/C11: an event is never handled before the machine has a current state: the pending
+\* `__initial__` of an async machine is always processed first
+ActivatedBeforeFirstEvent ==
+    \A i \in Slots : (Born(i) /\ TopIs(M(i), "trig") /\ ~Top(M(i)).init) => Top(M(i)).from # ""
+
 \* C14: only before/on results reach the caller
 ResultOnlyBeforeOn ==
     \A i \in Slots : (Born(i) /\ TopIs(M(i), "trig")) =>
